@@ -58,6 +58,10 @@ if rc != 0:
 data = json.load(open(res))
 ck.log("harness ran")
 
+for mod in data["Modules"]:
+    if mod.get("RunErr") and not mod.get("Obs"):
+        ck.violation("oracle-crashed", "the driver of a generated module crashed before reporting (%s): no executions to compare with" % mod["RunErr"],
+                     {"sources": mod.get("Sources")}, no_input=True)
 NIL = ["NoNil", "NeverNil", "AlwaysNil", "MaybeNilGlobal", "MaybeNil"]
 def vn(p): return "(%s, %s)" % (NIL[p[0]], NIL[p[1]])
 def shapes(o, iface):
@@ -152,14 +156,14 @@ def claim_key(meta):
         if fact[1] == 2 and any(s in ("SNon", "SHold true", "SHold false") for s in ob): bad.append("outer-AlwaysNil-but-non-nil")
         if fact[0] == 1 and "SHold true" in ob: bad.append("inner-NeverNil-but-nil")
         if fact[0] == 2 and "SHold false" in ob: bad.append("inner-AlwaysNil-but-non-nil")
-    if meta["flagged"]: bad.append("sa4023-flagged")
+    if any(any(s in ("SNil", "SINil") for s in meta["obs"][k]) for k in meta["flagged"] if k < len(meta["obs"])): bad.append("sa4023-flagged-comparison-succeeded")
     return "+".join(sorted(set(bad))) or "claim"
 for i in viol[:30]:
     meta = cases[i][0]
     ck.violation("unsound:" + claim_key(meta),
                  "nilness fact of %s is contradicted by an execution: facts (inner,outer) %s, observed shapes per result %s%s" % (
                      meta["name"], [[NIL[a], NIL[b]] for a, b in meta["facts"]], meta["obs"],
-                     " (SA4023 flags a comparison with nil that succeeded)" if meta["flagged"] else ""),
+                     " (SA4023 flags a comparison with nil that succeeded)" if "sa4023" in claim_key(meta) else ""),
                  {"function": meta["name"], "facts": meta["facts"], "observed": meta["obs"], "sa4023_flagged": meta["flagged"],
                   "go_source": fn_source(meta), "ir": meta["text"], "seed": ck.seed,
                   "rerun": "VERIF_SEED=%d ./check C15" % ck.seed})
